@@ -4,6 +4,7 @@ import VerifModel.Driver.Det
 import VerifModel.Driver.Data
 import VerifModel.Driver.Clean
 import VerifModel.Driver.Agg
+import VerifModel.Driver.Scripts
 /-
   verifdrv — line-protocol driver: one operation per input line, one canonical
   reply line.  `ERR bad-op` for anything a handler does not recognise.
@@ -11,7 +12,7 @@ import VerifModel.Driver.Agg
 open VerifModel
 
 def handlers : List (List String → Option String) :=
-  [Driver.Cmp.handle, Driver.Cont.handle, Driver.Det.handle, Driver.Data.handle, Driver.Clean.handle, Driver.Agg.handle]
+  [Driver.Cmp.handle, Driver.Cont.handle, Driver.Det.handle, Driver.Data.handle, Driver.Clean.handle, Driver.Agg.handle, Driver.Scripts.handle]
 
 def step (line : String) : String :=
   let args := (line.trimAscii.toString.splitOn " ").filter (· ≠ "")
